@@ -22,6 +22,15 @@ Generated/Registry.vos Generated/Registry.vok Generated/Registry.required_vos: G
 Generated/JsExports.vo Generated/JsExports.glob Generated/JsExports.v.beautified Generated/JsExports.required_vo: Generated/JsExports.v 
 Generated/JsExports.vio: Generated/JsExports.v 
 Generated/JsExports.vos Generated/JsExports.vok Generated/JsExports.required_vos: Generated/JsExports.v 
+Model/Flow.vo Model/Flow.glob Model/Flow.v.beautified Model/Flow.required_vo: Model/Flow.v 
+Model/Flow.vio: Model/Flow.v 
+Model/Flow.vos Model/Flow.vok Model/Flow.required_vos: Model/Flow.v 
+Generated/SsaNative.vo Generated/SsaNative.glob Generated/SsaNative.v.beautified Generated/SsaNative.required_vo: Generated/SsaNative.v Model/Flow.vo
+Generated/SsaNative.vio: Generated/SsaNative.v Model/Flow.vio
+Generated/SsaNative.vos Generated/SsaNative.vok Generated/SsaNative.required_vos: Generated/SsaNative.v Model/Flow.vos
+Generated/SsaWasm.vo Generated/SsaWasm.glob Generated/SsaWasm.v.beautified Generated/SsaWasm.required_vo: Generated/SsaWasm.v Model/Flow.vo
+Generated/SsaWasm.vio: Generated/SsaWasm.v Model/Flow.vio
+Generated/SsaWasm.vos Generated/SsaWasm.vok Generated/SsaWasm.required_vos: Generated/SsaWasm.v Model/Flow.vos
 Spec/Rfc4648.vo Spec/Rfc4648.glob Spec/Rfc4648.v.beautified Spec/Rfc4648.required_vo: Spec/Rfc4648.v Base/Prelude.vo
 Spec/Rfc4648.vio: Spec/Rfc4648.v Base/Prelude.vio
 Spec/Rfc4648.vos Spec/Rfc4648.vok Spec/Rfc4648.required_vos: Spec/Rfc4648.v Base/Prelude.vos
@@ -133,6 +142,9 @@ Proofs/RestProofs.vos Proofs/RestProofs.vok Proofs/RestProofs.required_vos: Proo
 Properties/C08.vo Properties/C08.glob Properties/C08.v.beautified Properties/C08.required_vo: Properties/C08.v Base/Prelude.vo Spec/Rfc4648.vo Model/Decoder.vo Model/Random.vo Proofs/Base32Proofs.vo Proofs/UtilsProofs.vo
 Properties/C08.vio: Properties/C08.v Base/Prelude.vio Spec/Rfc4648.vio Model/Decoder.vio Model/Random.vio Proofs/Base32Proofs.vio Proofs/UtilsProofs.vio
 Properties/C08.vos Properties/C08.vok Properties/C08.required_vos: Properties/C08.v Base/Prelude.vos Spec/Rfc4648.vos Model/Decoder.vos Model/Random.vos Proofs/Base32Proofs.vos Proofs/UtilsProofs.vos
+Properties/C09.vo Properties/C09.glob Properties/C09.v.beautified Properties/C09.required_vo: Properties/C09.v Model/Flow.vo Generated/SsaNative.vo Generated/SsaWasm.vo
+Properties/C09.vio: Properties/C09.v Model/Flow.vio Generated/SsaNative.vio Generated/SsaWasm.vio
+Properties/C09.vos Properties/C09.vok Properties/C09.required_vos: Properties/C09.v Model/Flow.vos Generated/SsaNative.vos Generated/SsaWasm.vos
 Properties/C10.vo Properties/C10.glob Properties/C10.v.beautified Properties/C10.required_vo: Properties/C10.v Base/Prelude.vo Hash/Sha.vo Model/Errors.vo Model/Decoder.vo Model/Derive.vo Model/Otp.vo Model/Ocra.vo Model/Utils.vo Model/Random.vo Model/Suite.vo Model/Url.vo Proofs/OtpProofs.vo Proofs/OcraProofs.vo Proofs/TotalProofs.vo
 Properties/C10.vio: Properties/C10.v Base/Prelude.vio Hash/Sha.vio Model/Errors.vio Model/Decoder.vio Model/Derive.vio Model/Otp.vio Model/Ocra.vio Model/Utils.vio Model/Random.vio Model/Suite.vio Model/Url.vio Proofs/OtpProofs.vio Proofs/OcraProofs.vio Proofs/TotalProofs.vio
 Properties/C10.vos Properties/C10.vok Properties/C10.required_vos: Properties/C10.v Base/Prelude.vos Hash/Sha.vos Model/Errors.vos Model/Decoder.vos Model/Derive.vos Model/Otp.vos Model/Ocra.vos Model/Utils.vos Model/Random.vos Model/Suite.vos Model/Url.vos Proofs/OtpProofs.vos Proofs/OcraProofs.vos Proofs/TotalProofs.vos
